@@ -422,6 +422,25 @@ func c20Names(variant string, n int) string {
 		return fill(n)
 	case "near":
 		return strings.Replace(fill(n, 0), "varlink", "Varlink", 1)
+	case "suffix-before": // an entry that merely ends in "varlink" stands before the exact one (exact one last)
+		p := strings.Split(fill(n, n-1), ":")
+		if n >= 2 {
+			p[0] = "io.systemd.journal-varlink"
+		}
+		return strings.Join(p, ":")
+	case "prefix-before": // an entry that merely starts with "varlink" stands before the exact one
+		p := strings.Split(fill(n, n-1), ":")
+		if n >= 2 {
+			p[0] = "varlink-control"
+		}
+		return strings.Join(p, ":")
+	case "lookalikes-only": // right arity, every entry contains "varlink" but none equals it
+		la := []string{"devvarlink", "varlinkd", "xvarlinkx", "varlink.", ".varlink", "varlink\tvarlink"}
+		p := make([]string, n)
+		for i := range p {
+			p[i] = la[i%len(la)]
+		}
+		return strings.Join(p, ":")
 	case "gap-right-arity": // an empty entry among exactly n entries, varlink last (for n = 2: ":varlink")
 		p := strings.Split(fill(n, n-1), ":")
 		p[0] = ""
@@ -493,7 +512,7 @@ func TestC20Product(t *testing.T) {
 	for _, pid := range []string{"own", "other", "unset", "garbage"} {
 		for _, fds := range []string{envUnset, "", "foo", "-1", "0", "1", "2", "3"} {
 			n, _ := strconv.Atoi(fds)
-			for _, nv := range []string{"unset", "fewer", "more", "more-late", "first", "middle", "last", "twice", "absent", "near", "empty", "gap-right-arity", "gap-extra", "gap-trailing"} {
+			for _, nv := range []string{"unset", "fewer", "more", "more-late", "first", "middle", "last", "twice", "absent", "near", "suffix-before", "prefix-before", "lookalikes-only", "empty", "gap-right-arity", "gap-extra", "gap-trailing"} {
 				for _, kind := range []string{"unix", "tcp", "file", "pipe"} {
 					cases = append(cases, C20Case{PID: pid, FDS: fds, Names: c20Names(nv, n), Kind: kind, Origin: "product"})
 				}
@@ -549,7 +568,7 @@ func genC20(t *rapid.T) C20Case {
 	}
 	parts := make([]string, k)
 	for i := range parts {
-		parts[i] = rapid.SampledFrom([]string{"varlink", "varlink", "", "a", "Varlink", "varlink ", " varlink", "varlinkx", "var:link"}).Draw(t, "name")
+		parts[i] = rapid.SampledFrom([]string{"varlink", "varlink", "", "a", "Varlink", "varlink ", " varlink", "varlinkx", "var:link", "xvarlink", "a-varlink", "varlink.", ".varlink"}).Draw(t, "name")
 	}
 	c.Names = strings.Join(parts, ":")
 	// keep the selected index within the three inherited descriptors
